@@ -39,6 +39,12 @@ fn histex_part(run: &mut Run, tier: &str, plans: &[HxPlan], owned: &[&str], note
         decoder_disagreements += st.decoder_disagreements;
         fams.push(histex::stats_json(&fam, &st));
     }
+    // the same oracle along one long history on a large structure (131 attributes, ~400 rights,
+    // two-byte identifiers): thresholds that the small worlds of the BFS cannot reach
+    let (big_steps, _) = histex::run_path(run, "big", &histex::big_path(), owned);
+    states += big_steps;
+    trans += big_steps;
+    run.set("large_structure_path_steps", json!(big_steps));
     run.set("states", json!(states));
     run.set("transitions", json!(trans));
     run.set("traces_validated_against_impl", json!(trans));
@@ -78,6 +84,17 @@ pub fn dispatch(args: &[String]) -> i32 {
             println!("{n} fixture checks, {} failures", fails.len());
             i32::from(!fails.is_empty())
         }
+        Some("bigpath") => {
+            let owned_s = args.get(1).cloned().unwrap_or("C".into());
+            let owned: Vec<&str> = owned_s.split(',').collect();
+            let mut run = Run::new("ADHOC", "quick", "model_checking");
+            let t = std::time::Instant::now();
+            let (steps, counts) = histex::run_path(&mut run, "big", &histex::big_path(), &owned);
+            println!("steps {steps} in {:.1}s {counts:?}", t.elapsed().as_secs_f64());
+            run.set("states", json!(steps));
+            run.set("transitions", json!(steps));
+            run.finish()
+        }
         Some("hx") => {
             // ad-hoc exploration: vh hx <family> <depth> <owned-prefixes,comma>
             let fam = family(args.get(1).map(String::as_str).unwrap_or("rot"));
@@ -113,7 +130,29 @@ pub fn run_check(prop: &str, tier: &str) -> i32 {
             run.finish()
         }
         "C03" => histex_check(prop, tier, &[hp("edit", 4, 6), hp("hyb", 3, 5)], &["C03."], HX),
-        "C04" => histex_check(prop, tier, &[hp("rot", 4, 5), hp("disrot", 4, 5)], &["C04."], HX),
+        "C04" => {
+            let mut run = Run::new(prop, tier, "model_checking");
+            histex_part(&mut run, tier, &[hp("rot", 4, 5), hp("disrot", 4, 5)], &["C04."], HX);
+            // many revisions of the same rights: a single long history, every step checked
+            let n = if tier == "quick" { 10 } else { 24 };
+            let mut path = vec![];
+            for i in 0..n {
+                path.push(crate::world::Op::Rekey(if i % 3 == 2 { "*".into() } else { "A::x".into() }));
+                path.push(crate::world::Op::Refresh { k: 0, keep: true });
+                if i % 4 == 3 {
+                    path.push(crate::world::Op::Refresh { k: 1, keep: true });
+                }
+            }
+            path.push(crate::world::Op::Keygen("A::x && H::hi".into()));
+            path.push(crate::world::Op::Refresh { k: 1, keep: false });
+            path.push(crate::world::Op::Prune("A::x".into()));
+            path.push(crate::world::Op::Refresh { k: 0, keep: true });
+            path.push(crate::world::Op::Refresh { k: 0, keep: false });
+            let (steps, _) = histex::run_path(&mut run, "rot", &path, &["C04."]);
+            run.set("long_path_steps", json!(steps));
+            run.set("long_path_revisions_of_one_right", json!(n + 1));
+            run.finish()
+        }
         "C05" => histex_check(prop, tier, &[hp("rotdel", 4, 5), hp("rot", 3, 4), hp("disrot", 4, 5)], &["C05."], HX),
         "C06" => histex_check(prop, tier, &[hp("dis", 4, 6), hp("disrot", 4, 5)], &["C06."], HX),
         "C07" => crate::ftamper::check_c07(prop, tier),
@@ -138,12 +177,18 @@ pub fn run_check(prop: &str, tier: &str) -> i32 {
             let mut run = Run::new(prop, tier, "model_checking");
             histex_part(&mut run, tier, &[hp("rt", 4, 5), hp("edit", 3, 4), hp("trace", 3, 4)], &["C13."], HX);
             crate::fixtures::report(&mut run);
+            crate::fixtures::big_roundtrip(&mut run);
             run.finish()
         }
         "C14" => crate::fparse::check(prop, tier),
         "C15" => crate::parsex::check(prop, tier),
         "C16" => crate::seqfresh::check(prop, tier),
-        "C17" => histex_check(prop, tier, &[hp("trace", 4, 6), hp("rot", 3, 4)], &["C17."], HX),
+        "C17" => {
+            let mut run = Run::new(prop, tier, "model_checking");
+            histex_part(&mut run, tier, &[hp("trace", 4, 6), hp("rot", 3, 4)], &["C17."], HX);
+            crate::tracing::bulk(&mut run, if tier == "quick" { 150 } else { 1000 });
+            run.finish()
+        }
         "C18" => histex_check(prop, tier, &[hp("recaps", 3, 5)], &["C18."], HX),
         "C19" => crate::sched::check(prop, tier),
         _ => machinery(&format!("no check for {prop}")),
